@@ -748,6 +748,11 @@ pub fn parse_run_backwards_with(pending: &[&Slot], short: &[u8; 11], idx_mask: u
             if p / 13 != nslots - 1 {
                 well_padded = false;
             }
+            // 0xFFFF is the padding value, never a character: a name that contains it before the terminator is
+            // malformed (readers differ on whether the padding-looking units count)
+            if units[..p].iter().any(|u| *u == 0xFFFF) {
+                well_padded = false;
+            }
             units[..p].to_vec()
         }
         None => {
